@@ -78,6 +78,15 @@ mut("c01-pad-offset", "C01", F,
     "        dbytwo = [math.ceil((o - i)/2) for o, i in zip(out_shape, in_shape)]",
     "the repaired pad2d defect, re-introduced (even -> odd)")
 
+mut("c01-czt-origin-float32-shift", "C01", F,
+    "    start = -(N // 2 - M // 2) + float(shift)\n",
+    "    start = -(N // 2 - M // 2) + shift\n",
+    "the 20th repaired defect, re-introduced: visible only for numpy float32 shift scalars")
+mut("c01-czt-shift-via-float32", "C01", F,
+    "    start = -(N // 2 - M // 2) + float(shift)\n",
+    "    start = -(N // 2 - M // 2) + float(np.float32(shift))\n",
+    "kernel origin uses the shift rounded to single precision, the post-chirp does not: fractional shifts that are not float32-exact")
+
 # ------------------------------------------------------------------ C12
 I = "prysm/interferogram.py"
 mut("c12-recenter-keeps-polar", "C12", I,
